@@ -40,6 +40,8 @@ fn n_strategy() -> BoxedStrategy<N> {
 
 #[derive(Clone, Debug)]
 pub struct Case {
+    /// 0 derived lexer on str / [u8]; 1 String, 2 Box<str>, 3 Rc<str> / Vec<u8> through hand-written Logos impls
+    pub source_kind: u8,
     pub bytes_mode: bool,
     pub input: Vec<u8>,
     pub nexts: u8,
@@ -50,8 +52,8 @@ const STR_ATOMS: &[&str] = &["a", "é", "日本", "12", " ", "+", "😀", "\"x\"
 const BYTE_ATOMS: &[&[u8]] = &[b"a", b"12", b" ", b"\x00", b"\x80\xff", b"<a>", b"\xc3\xa9"];
 
 pub fn case_strategy() -> BoxedStrategy<Case> {
-    (any::<bool>(), vec(any::<u8>(), 0..8), 0u8..5, vec(n_strategy(), 1..5))
-        .prop_map(|(bytes_mode, atoms, nexts, bumps)| {
+    (0u8..4, any::<bool>(), vec(any::<u8>(), 0..8), 0u8..5, vec(n_strategy(), 1..5))
+        .prop_map(|(source_kind, bytes_mode, atoms, nexts, bumps)| {
             let mut input = Vec::new();
             for a in atoms {
                 if bytes_mode {
@@ -60,7 +62,7 @@ pub fn case_strategy() -> BoxedStrategy<Case> {
                     input.extend_from_slice(STR_ATOMS[(a as usize * STR_ATOMS.len()) >> 8].as_bytes());
                 }
             }
-            Case { bytes_mode, input, nexts, bumps }
+            Case { source_kind, bytes_mode, input, nexts, bumps }
         })
         .boxed()
 }
@@ -110,12 +112,27 @@ macro_rules! impl_l {
 }
 impl_l!(StrA);
 impl_l!(BytesA);
+impl_l!(ManualString);
+impl_l!(ManualBoxStr);
+impl_l!(ManualRcStr);
+impl_l!(ManualVec);
 
 pub fn interpret(case: &Case, run: Option<&mut Run>) -> Result<(), String> {
     let src: &[u8] = &case.input;
     let is_str = !case.bytes_mode;
     let text = if is_str { std::str::from_utf8(src).unwrap() } else { "" };
-    let mut lex: Box<dyn L + '_> = if is_str { Box::new(Lexer::<StrA>::new(text)) } else { Box::new(Lexer::<BytesA>::new(src)) };
+    let owned_string: String = text.to_string();
+    let owned_box: Box<str> = text.into();
+    let owned_rc: std::rc::Rc<str> = text.into();
+    let owned_vec: Vec<u8> = src.to_vec();
+    let mut lex: Box<dyn L + '_> = match (case.source_kind, is_str) {
+        (0, true) => Box::new(Lexer::<StrA>::new(text)),
+        (0, false) => Box::new(Lexer::<BytesA>::new(src)),
+        (1, true) => Box::new(Lexer::<ManualString>::new(&owned_string)),
+        (2, true) => Box::new(Lexer::<ManualBoxStr>::new(&owned_box)),
+        (3, true) => Box::new(Lexer::<ManualRcStr>::new(&owned_rc)),
+        (_, _) => Box::new(Lexer::<ManualVec>::new(&owned_vec)),
+    };
     for _ in 0..case.nexts {
         lex.next_();
     }
@@ -183,7 +200,8 @@ pub fn interpret(case: &Case, run: Option<&mut Run>) -> Result<(), String> {
                 run.count(n, 1);
             }
         }
-        run.sample(|| json!({"mode": if is_str { "str" } else { "bytes" }, "input": show(src), "nexts": case.nexts, "bumps": format!("{:?}", case.bumps)}));
+        run.count(&format!("source_kind_{}", case.source_kind), 1);
+        run.sample(|| json!({"source_kind": case.source_kind, "mode": if is_str { "str" } else { "bytes" }, "input": show(src), "nexts": case.nexts, "bumps": format!("{:?}", case.bumps)}));
     }
     Ok(())
 }
@@ -216,13 +234,14 @@ pub fn main(args: &Args, cfg: &str) -> i32 {
         "C15",
         &args.tier,
         args.seed,
-        "proptest cases: source (str with multi-byte chars / bytes) x k next() calls x 1-4 bump amounts from {remaining+-2, each char boundary +-1, usize::MAX-k, usize::MAX-end+j (wraps onto valid positions), small}; bump under catch_unwind; oracle: returns normally iff end.checked_add(n) is Some(e) with e <= len on a char boundary, else panics; afterwards start <= end <= len on boundaries (checked from span() before slice()/remainder() are called and compared), lexer usable after a caught panic; evaluation = one bump; non-trivial = distinct cases with n > remaining, n landing mid-char, or n wrapping",
+        "proptest cases: source (str / [u8] with a derived lexer; String, Box<str>, Rc<str>, Vec<u8> through hand-written Logos impls over the Deref blanket Source impl; multi-byte chars) x k next() calls x 1-4 bump amounts from {remaining+-2, each char boundary +-1, usize::MAX-k, usize::MAX-end+j (wraps onto valid positions), small}; bump under catch_unwind; oracle: returns normally iff end.checked_add(n) is Some(e) with e <= len on a char boundary, else panics; afterwards start <= end <= len on boundaries (checked from span() before slice()/remainder() are called and compared), lexer usable after a caught panic; evaluation = one bump; non-trivial = distinct cases with n > remaining, n landing mid-char, or n wrapping",
     );
     run.assumptions = vec![format!("build configuration {cfg}")];
     std::panic::set_hook(Box::new(|_| {}));
     if let Some(path) = &args.replay {
         let v: serde_json::Value = serde_json::from_str(&std::fs::read_to_string(path).unwrap()).unwrap();
         let case = Case {
+            source_kind: v["source_kind"].as_u64().unwrap_or(0) as u8,
             bytes_mode: v["bytes_mode"].as_bool().unwrap(),
             input: unhex(v["input_hex"].as_str().unwrap()),
             nexts: v["nexts"].as_u64().unwrap() as u8,
@@ -250,7 +269,7 @@ pub fn main(args: &Args, cfg: &str) -> i32 {
             report_violation(
                 "C15",
                 &args.replay_dir,
-                &json!({"property": "C15", "tier": "A", "config": cfg, "bytes_mode": case.bytes_mode, "input_hex": hex(&case.input), "input": show(&case.input), "nexts": case.nexts, "bumps": case.bumps.iter().map(n_json).collect::<Vec<_>>(), "findings": [{"property": "C15", "what": msg}]}),
+                &json!({"property": "C15", "tier": "A", "config": cfg, "source_kind": case.source_kind, "bytes_mode": case.bytes_mode, "input_hex": hex(&case.input), "input": show(&case.input), "nexts": case.nexts, "bumps": case.bumps.iter().map(n_json).collect::<Vec<_>>(), "findings": [{"property": "C15", "what": msg}]}),
             );
             1
         }
